@@ -100,6 +100,14 @@ theorem dateCore_eq (y m d h mi s ms : Int) :
   make_compose y m d h mi s ms
 
 
+/-- Date.UTC(a1,…,an) / `new Date(a1,…,an)` (n = 2..7) with integral arguments, through newDateTime's float64
+    wrapper (pick, the two-digit-year test and `year += 1900` in float64, int conversion): the value handed
+    to TimeClip by §15.9.4.3 — two-digit years included (integral years are outside Dev twodigit_fraction). -/
+theorem dateUTC_int (vs : List Int) (h2 : 2 ≤ vs.length) (h7 : vs.length ≤ 7) (hsm : ∀ v ∈ vs, v.natAbs < 2^53) :
+    newDateTime (vs.map ofInt) = Spec.dateUTCRaw (vs.map ofInt) := Lem.dateUTC_int vs h2 h7 hsm
+
+example : newDateTime ([99, 13, -5, 25, -61, 3600, 123456].map ofInt) = some 948934863456 := by decide +kernel
+
 -- ================================================================ setters
 
 /-- every setUTC* body = the ES5 recomposition, for every integer time value and all integer arguments -/
@@ -115,6 +123,13 @@ theorem set_int (d : DateObj) (hd : d.isNaN = false) (t : Int) (hr : t.natAbs < 
 
 theorem newDate_int (t : Int) (hr : t.natAbs < 2^53) (hdiv : DivExact t) : newDate (ofInt t) = validState t :=
   Lem.set_int _ rfl t hr hdiv
+
+/-- C12.timeclip_partial: inside the ES5 range `new Date(t)` is the ES5 object (beyond it: Dev no_timeclip) -/
+theorem timeclip_partial (t : Int) (h : t.natAbs ≤ 8640000000000000) (hdiv : DivExact t) :
+    observe (newDate (ofInt t)) = Spec.observe (Spec.clipNumber (ofInt t)) := by
+  rw [newDate_int t (by omega) hdiv, accessors, ofInt_small t (by omega)]
+  simp only [Spec.clipNumber, field_fvInt, Spec.TimeClip]
+  rw [if_neg (by omega)]
 
 example : DivExact 1419993358860123 := by decide +kernel
 example : DivExact (-8639999999999999) := by decide +kernel
